@@ -402,7 +402,7 @@ def run_history(h, workdir):
                     same = core_shape(jd.shape) == core_shape(pre.shape)
                     if same:
                         jd = jd.reshape(pre.shape)
-                        same = np.allclose(jd, pre, rtol=0, atol=0.3) if lossy else np.array_equal(jd, pre)
+                        same = np.allclose(jd, pre, rtol=0, atol=0.3, equal_nan=True) if lossy else np.array_equal(jd, pre, equal_nan=True)
                     if not same:
                         print('PRED', hid, k, 'file_differs:data', 'sig=-', flush=True)
                     elif not np.allclose(j.affine, pre_aff, rtol=0, atol=ATOL):
@@ -422,8 +422,8 @@ def run_history(h, workdir):
                     else:
                         try:
                             post = np.asanyarray(img.dataobj)
-                            if post.shape != pre.shape or not (np.allclose(post, pre, rtol=0, atol=0.3) if h.get('approx') else
-                                                               np.array_equal(post, pre)):
+                            if post.shape != pre.shape or not (np.allclose(post, pre, rtol=0, atol=0.3, equal_nan=True) if h.get('approx') else
+                                                               np.array_equal(post, pre, equal_nan=True)):
                                 print('PRED', hid, k, 'unusable:differs', 'sig=' + sig, flush=True)
                         except Exception as e:
                             print('PRED', hid, k, 'unusable:' + type(e).__name__, 'sig=' + sig, flush=True)
